@@ -46,10 +46,11 @@ def _run(ctx, binary, tmp):
         return
     quick = ctx.tier == "quick"
     # (M) exhaustive, full request alphabet
-    cfg = "PrivVal_q.cfg" if quick else "PrivVal_t.cfg"
-    r = vlib.run_tlc(ctx, "MCPrivVal", cfg, timeout=3000)
-    vlib.require_model_ok(r, cfg)
-    ctx.add_tlc(r, "exhaustive H=1..2 R=0..1 S=1..3 D=2 TS=2, <=%d calls, <=2 crashes" % (3 if quick else 4))
+    if not quick:   # quick: the edge run below is itself exhaustive with all invariants
+        for cfg, n in (("PrivVal_q.cfg", 3), ("PrivVal_t.cfg", 4)):
+            r = vlib.run_tlc(ctx, "MCPrivVal", cfg, timeout=3000)
+            vlib.require_model_ok(r, cfg)
+            ctx.add_tlc(r, "exhaustive H=1..2 R=0..1 S=1..3 D=2 TS=2, <=%d calls, <=2 crashes" % n)
     # (M)+(R) exhaustive with edge emission
     total_kills = 0
     for ecfg, label in ([("PrivVal_qe.cfg", "edges H=1 R=0..1 <=3 calls")] if quick else
@@ -66,11 +67,11 @@ def _run(ctx, binary, tmp):
         s = replay(ctx, binary, behs, label, km, tmp)
         total_kills += int(s.get("real_kills", 0))
     # simulation: 3 heights, 3 rounds, 3 data values, 12 calls, 4 crashes
-    n = 300 if quick else 5000
+    n = 200 if quick else 5000
     r = vlib.run_tlc(ctx, "MCPrivVal", "PrivVal_sim.cfg", mode="simulate", simulate=n, depth=80, tags=("TRACE",), timeout=1800)
     vlib.require_model_ok(r, "PrivVal_sim")
     ctx.add_tlc(r, "simulate H=1..3 R=0..2 D=3, 12 calls, <=4 crashes")
-    s = replay(ctx, binary, r.traces, "simulation", 6 if quick else 4, tmp)
+    s = replay(ctx, binary, r.traces, "simulation", 6 if quick else 12, tmp)
     total_kills += int(s.get("real_kills", 0))
     if total_kills == 0:
         ctx.notes.append("seccomp kill points unavailable on this host: crash-inside-WriteFileAtomic states were constructed only")
